@@ -776,15 +776,9 @@ class Pipeline:
         self.target_str, self.spin, self.classes, self.schemes, self.opts = target_str, spin, classes, schemes, opts
         self.tgt = tgt
         self.calls = []
+        self.made = 0
         self.optimize = True
         self.expr = Rec("expr_container:Expr", "EXPR", terms=tuple(t for _, ts in classes for t in ts))
-        # the unoptimised scheme of a term: one hyper-contraction of all tensors/deltas, exponent-many times
-        self.hyper = {}
-        for _, ts in classes:
-            for t in ts:
-                ops = [op for op in term_operands(t)]
-                if ops:
-                    self.hyper[id(t)] = [contraction(cname, 900 + len(self.hyper), [n for n, _ in ops], [ix for _, ix in ops], tgt)]
 
     def hooks(self):
         m = self.ctx.model
@@ -797,12 +791,33 @@ class Pipeline:
                 self.calls.append((short, b))
                 if short == "exploit_perm_sym":
                     return {sym: Rec("expr_container:Expr", f"class{k}", terms=tuple(ts)) for k, (sym, ts) in enumerate(self.classes)}
-                table = self.schemes if short == "optimize_contractions" else self.hyper
-                return list(table[id(b.get("term"))])
+                if short == "optimize_contractions":
+                    return list(self.schemes[id(b.get("term"))])
+                # the unoptimised scheme is built by the library's own function (evaluated), on top of the index
+                # factory and the Contraction constructor below
+                from ..symex import Func
+                return sx._invoke(Func(fn, [], fn._module, fn._qual), a, kw, None)
             return hook
+
+        def get_symbols(sx, a, kw):
+            b = sx.bind(m.fn("indices:get_symbols"), a, kw, fill_defaults=True)
+            names, spins = b.get("indices"), b.get("spins")
+            if not isinstance(names, str) or not (spins is None or isinstance(spins, str)):
+                return NotImplemented
+            return list(self.w(names, spins))
+
+        def new_contraction(sx, a, kw):
+            b = sx.bind(m.fn(CO + "Contraction.__init__"), [None] + list(a), kw, fill_defaults=True)
+            self.made += 1
+            try:
+                names, indices, tt = list(b["names"]), [tuple(ix) for ix in b["indices"]], tuple(b["term_target_indices"])
+            except (TypeError, KeyError):
+                raise AnalysisError(f"C17: Contraction(...) built from {b}")
+            return contraction(self.cname, 5000 + self.made, names, indices, tt)
         return {"exploit_perm_sym": rec("sort_expr:exploit_perm_sym", "exploit_perm_sym"),
                 "optimize_contractions": rec(OC + "optimize_contractions", "optimize_contractions"),
-                "unoptimized_contraction": rec(OC + "unoptimized_contraction", "unoptimized_contraction")}
+                "unoptimized_contraction": rec(OC + "unoptimized_contraction", "unoptimized_contraction"),
+                "get_symbols": get_symbols, "Contraction": new_contraction}
 
     def run(self, backend, optimize=True):
         self.calls = []
@@ -1083,16 +1098,17 @@ def r17f(ctx):
     cases = [("x_ia^2 y_a", term_rec(w, SNum(2), [("c", 1)], [("x", (i, a), 2), ("y", (a,), 1)]), "i", None, (i,)),
              ("x_ia delta_ij^3", term_rec(w, SNum(-1), [], [("x", (i, a), 1), ("delta", (i, j), 3)]), "ja", None, (j, a)),
              ("A_ia B_jb", term_rec(w, SNum(1), [], [("A", (i, a), 1), ("B", (j, b), 1)]), "iajb", None, (i, a, j, b)),
-             ("A_ia", term_rec(w, SNum(1), [], [("A", (i, a), 1)]), "ai", None, (a, i))]
+             ("A_ia", term_rec(w, SNum(1), [], [("A", (i, a), 1)]), "ai", None, (a, i)),
+             ("spin labelled A_ia B_ia", term_rec(w, SNum(1), [], [("A", w("ia", "ab"), 1), ("B", w("ia", "ab"), 1)]), "ai", "ba",
+              tuple(reversed(w("ia", "ab"))))]
     for label, term, tstr, spin, tgt in cases:
         made = []
 
         def get_symbols(sx, a_, kw):
-            names = a_[0] if a_ else kw.get("idx")
-            sp = a_[1] if len(a_) > 1 else kw.get("spins")
-            if not isinstance(names, str):
+            b_ = sx.bind(ctx.model.fn("indices:get_symbols"), a_, kw, fill_defaults=True)
+            if not isinstance(b_.get("indices"), str):
                 return NotImplemented
-            return list(w(names, sp))
+            return list(w(b_["indices"], b_.get("spins")))
 
         def new_contraction(sx, a_, kw):
             b_ = sx.bind(ctx.model.fn(CO + "Contraction.__init__"), [None] + list(a_), kw, fill_defaults=True)
